@@ -23,7 +23,7 @@ INFO = {
                    "inputs are the seven (name, vector) pairs name->field (identitySecret->identity_secret, ... ) of that witness, the "
                    "witness vector is calculate_rln_witness(inputs, graph), and Groth16 is called with (pk.0, r, s, pk.1, "
                    "pk.1.num_instance_variables, pk.1.num_constraints, witness vector) where r and s are two successive draws of one "
-                   "thread_rng. The name table against the bundled graph is C05 R05-3; the verifier's public-input order is C02 R02-3. R01-7 instance state: the proving key, verifying key and graph of an instance have no writer after construction (who-may-write inventory over the MIR), and generate_rln_proof / get_serialized_rln_witness / get_proof / get_root / get_leaf reach no tree mutator in their resolved call graph. R01-8 (shared with C06 R06-3): the in-memory back ends recompute every ancestor of a written range up to the root, unconditionally, so the root a proof is checked against reflects every write. R01-9: generate_proof_with_witness maps each signed element w of an externally computed witness to p - |w| when negative and to w otherwise (or a floored remainder by p), for every element. R01-10 (shared with C07): the Merkle path a proof is made for is the stored sibling at every level in the three back ends. R01-11 (shared with C02): the verification entry points accept under exactly the specified conditions.",
+                   "thread_rng. The name table against the bundled graph is C05 R05-3; the verifier's public-input order is C02 R02-3. R01-7 instance state: the proving key, verifying key and graph of an instance have no writer after construction (who-may-write inventory over the MIR), and generate_rln_proof / get_serialized_rln_witness / get_proof / get_root / get_leaf reach no tree mutator in their resolved call graph. R01-8 (shared with C06 R06-3): the in-memory back ends recompute every ancestor of a written range up to the root, unconditionally, so the root a proof is checked against reflects every write. R01-9: generate_proof_with_witness maps each signed element w of an externally computed witness to p - |w| when negative and to w otherwise (or a floored remainder by p), for every element. R01-10 (shared with C07): the Merkle path a proof is made for is the stored sibling at every level in the three back ends. R01-11 (shared with C02): the verification entry points accept under exactly the specified conditions. R01-12 (shared, C06 R06-11 / C17 R17-3): the member's path is read back from the store: the key-value adapter persists every record and the node codec is the 32-byte field codec.",
     "not_decided": "that a proof produced from a satisfying witness verifies (Groth16, QAP reduction, zkey and graph contents - numeric); "
                    "the wasm32-only entry point that takes an externally computed witness vector (no wasm32 std here: cannot be type-checked)",
     "assumptions": ["arkworks Groth16 completeness for a satisfying assignment", "the bundled zkey and graph belong to the same circuit"],
